@@ -189,6 +189,16 @@ def run_pca(case, R):
         c = np.abs(np.einsum('...a,...a->...', top.conj(), w)) / nrm
         if gap_ok.any():
             R.check('C12.pca', float(c[gap_ok].min()) >= 1 - 1e-8, f'pca/direction/{scaling}', f'PCA vector is not the principal eigenvector (|cos| {c[gap_ok].min():.10f})', **info)
+    # the wrapper spelling of the same vector: get_bf_vector('pca', Phi, <noise>, scaling=...) forwards its options to get_pca_vector
+    from pb_bss.extraction import get_bf_vector
+    for scaling in ('trace', 'eigenvalue'):
+        try:
+            a = np.asarray(get_bf_vector('pca', P, P, scaling=scaling)); b = np.asarray(get_pca_vector(P, scaling=scaling))
+            R.check('C12.pca', a.shape == b.shape and np.array_equal(a, b), f'pca/wrapper-options/{scaling}', f"get_bf_vector('pca', ..., scaling='{scaling}') is not get_pca_vector(..., scaling='{scaling}')", **info)
+        except Exception as e:
+            if not instr.is_library_exception(e):
+                raise
+            R.count(f"get_bf_vector('pca', scaling=) raised {type(e).__name__}")
     R.mark_nontrivial('pca', D, list(lead), case['rank'] < D)
 
 
